@@ -139,8 +139,8 @@ def r18d(chk, rid='R18.d'):
     ints = [n for n in ast.walk(fn) if isinstance(n, ast.Assign) and text(n.value) == 'str(int(value.value))']
     chk.ob(rid, SER, 'CSSSerializer.do_css_Value', 'integral values are written as str(int(v))', len(ints) == 1, f'{len(ints)}')
     src = ast.unparse(fn)
-    chk.ob(rid, SER, 'CSSSerializer.do_css_Value', "an explicit '+' is kept for non-zero values", "value.value != 0 and value._sign == '+'" in src and "sign = '+'" in src, '')
-    chk.ob(rid, SER, 'CSSSerializer.do_css_Value', 'sign, number and unit are concatenated in this order', 'out.append(sign + val + dim, value.type)' in src, '')
+    chk.ob(rid, SER, 'CSSSerializer.do_css_Value', "an explicit '+' is kept for non-zero values", "value.value != 0 and value._sign == '+'" in src and "sign = '+'" in src, '', shape=True)
+    chk.ob(rid, SER, 'CSSSerializer.do_css_Value', 'sign, number and unit are concatenated in this order', 'out.append(sign + val + dim, value.type)' in src, '', shape=True)
 
 
 def _elif_chain_before(m, ifnode):
